@@ -87,8 +87,10 @@ var hllKinds = []*hllKind{
 			}
 			return s, nil
 		},
-		zero:  func() sketch { return new(card.HyperLogLog32) },
-		union: func(dst, a, b sketch) error { return dst.(*card.HyperLogLog32).Union(a.(*card.HyperLogLog32), b.(*card.HyperLogLog32)) },
+		zero: func() sketch { return new(card.HyperLogLog32) },
+		union: func(dst, a, b sketch) error {
+			return dst.(*card.HyperLogLog32).Union(a.(*card.HyperLogLog32), b.(*card.HyperLogLog32))
+		},
 		setHash: func(s sketch, hk int) error {
 			return s.(*card.HyperLogLog32).SetHash(hash32(hk))
 		},
@@ -112,8 +114,10 @@ var hllKinds = []*hllKind{
 			}
 			return s, nil
 		},
-		zero:  func() sketch { return new(card.HyperLogLog64) },
-		union: func(dst, a, b sketch) error { return dst.(*card.HyperLogLog64).Union(a.(*card.HyperLogLog64), b.(*card.HyperLogLog64)) },
+		zero: func() sketch { return new(card.HyperLogLog64) },
+		union: func(dst, a, b sketch) error {
+			return dst.(*card.HyperLogLog64).Union(a.(*card.HyperLogLog64), b.(*card.HyperLogLog64))
+		},
 		setHash: func(s sketch, hk int) error {
 			return s.(*card.HyperLogLog64).SetHash(hash64(hk))
 		},
